@@ -88,6 +88,22 @@ func (h *invocationErrorHandler) ServeHTTP(writer http.ResponseWriter, request *
 	}
 
 	if err := server.SendErrorResponse(chi.URLParam(request, "awsrequestid"), response); err != nil {
+		if tooLarge, ok := err.(*interop.ErrorResponseTooLarge); ok {
+			// as for a response above the limit: the caller gets the size error, the runtime is told 413
+			if server.SendErrorResponse(chi.URLParam(request, "awsrequestid"), tooLarge.AsErrorResponse()) != nil {
+				rendering.RenderInteropError(writer, request, err)
+				return
+			}
+
+			appctx.StoreInvokeErrorTraceData(appCtx, &interop.InvokeErrorTraceData{})
+
+			if err := runtime.ResponseSent(); err != nil {
+				log.Panic(err)
+			}
+
+			rendering.RenderRequestEntityTooLarge(writer, request)
+			return
+		}
 		rendering.RenderInteropError(writer, request, err)
 		return
 	}
